@@ -882,13 +882,45 @@ def check_subset_frequencies(prog, rep, tier):
     rep.floor("R9-exact-frequency", 4)
 
 
+def check_decision_purity(prog, rep):
+    """R11-decision: no criterion writes through its decision vector.  latentfn / evalfn / the transformation hooks all receive the SAME x (evalfn hands it
+    to latentfn and then to obj_trans / ineqcv_trans / eqcv_trans): an in-place update in one of them changes what the others see and what the optimiser holds."""
+    from sa.purity import Purity, root_text, may_be_array
+    R = "R11-decision"
+    summaries = {}
+    n = 0
+    for m in prog.modules.values():
+        if not (m.name.startswith("pybrops.breed.prot.sel.prob") or m.name.startswith("pybrops.opt.prob")):
+            continue
+        for K in m.classes.values():
+            for f in K.methods.values():
+                ps = f.params()
+                if len(ps) < 2 or ps[1] != "x" or f.name.startswith("__"):
+                    continue
+                try:
+                    pu = Purity(prog, f, summaries)
+                except RecursionError:
+                    rep.unrec(R, f.qualname, "alias walk did not terminate")
+                    continue
+                rep.saw(f)
+                n += 1
+                evs = [e for e in pu.events if ("param", "x") in e.roots and not (isinstance(e.node, ast.AugAssign) and isinstance(e.node.target, ast.Name) and not may_be_array(f, "x"))]
+                if evs:
+                    e = evs[0]
+                    rep.violate(R, f.qualname, "`%s` writes through %s, which shares storage with the decision vector x handed in by the caller: after this call the transformations in "
+                                "evalfn and the optimiser's own candidate see the changed vector" % (e.what, e.name), where(f, e.node), "a fresh array (e.g. contrib = (1.0 / x.sum()) * x)", e.what)
+                else:
+                    rep.ok(R, f.qualname, "no in-place update reaches the decision vector")
+    return n
+
+
 def run(prog, rep, tier):
     rep.explanation = ("Every latentfn of the problem classes is normalised to an algebraic normal form with the contribution idioms canonicalised, then compared with "
                        "its siblings (the four decision encodings of one criterion) and with the criterion's reference term; evalfn/_evaluate wiring, Cholesky "
                        "factor construction, factory keyword forwarding, chunk tiling/slice coupling and loop-variant data are structural rules.")
     rep.not_decided = ["numerical agreement to rounding", "that the reference terms are the textbook definitions beyond their transcription",
                        "classes whose latentfn simulates (RealLookAhead...) are listed, not claimed"]
-    for r, n in (("R1-criterion", 50), ("R2-invariance", 50), ("R3-wiring", 2), ("R4-factor", 8), ("R5-factories", 60), ("R6-chunks", 2), ("R7-loopdata", 4)):
+    for r, n in (("R1-criterion", 50), ("R2-invariance", 50), ("R3-wiring", 2), ("R4-factor", 8), ("R5-factories", 60), ("R6-chunks", 2), ("R7-loopdata", 4), ("R11-decision", 50)):
         rep.floor(r, n)
     check_criteria(prog, rep, tier)
     check_wiring(prog, rep)
@@ -899,4 +931,5 @@ def run(prog, rep, tier):
     check_loopdata(prog, rep)
     check_derived(prog, rep)
     check_scratch(prog, rep)
+    check_decision_purity(prog, rep)
     check_subset_frequencies(prog, rep, tier)
